@@ -5,6 +5,8 @@ package main
 // callbacks and timestamps. They never look at the Lean model's output.
 
 import (
+	"context"
+	"errors"
 	"fmt"
 	"sort"
 	"strings"
@@ -219,12 +221,17 @@ func retryOracles(run *retryRun, cfg string, modelSettled, stuck, havePlan bool,
 		// AlwaysResubscribe): there a single-filter SUBSCRIBE f.q may be the library's own re-subscription of an
 		// established filter rather than the application's request with the same content
 		resubConn, tainted := map[int]bool{}, map[string]bool{}
-		firstAccepted := true
+		firstAccepted, resubSeen := true, false
 		for _, c := range s.conns {
 			if !c.accepted {
 				continue
 			}
 			if !firstAccepted && (!c.sessionPresent || cfg[3] == '1') {
+				resubSeen = true
+			}
+			if resubSeen {
+				// … and every later connection: a re-subscription interrupted there is retransmitted from the retry queue
+				// on whatever connection comes next, session kept or not
 				resubConn[c.k] = true
 			}
 			firstAccepted = false
@@ -555,7 +562,7 @@ func retryOracles(run *retryRun, cfg string, modelSettled, stuck, havePlan bool,
 				nT++
 			}
 		}
-		if nT < nSilentAwaited {
+		if nT < nSilentAwaited && !strings.Contains(cfg, "e0") {
 			v = append(v, viol("C18", "no-timeout-error", "%d request(s) met a silent broker but OnError reported %d RequestTimeoutError(s)", nSilentAwaited, nT))
 			v = append(v, viol("C19", "rto-not-identifiable", "%d request(s) ran into the response timeout but only %d of the errors given to OnError are identifiable as RequestTimeoutError", nSilentAwaited, nT))
 		}
@@ -630,7 +637,11 @@ func retryOracles(run *retryRun, cfg string, modelSettled, stuck, havePlan bool,
 	// a predicted dial never happened: the loop is wedged (e.g. waiting for a CONNACK without a bound)
 	if len(run.planMiss) > 0 && !stuck {
 		var want, got int
-		if n, _ := fmt.Sscanf(run.planMiss[0][strings.Index(run.planMiss[0], "want{"):], "want{d%d", &want); n == 1 {
+		wi := strings.Index(run.planMiss[0], "want{")
+		if wi < 0 {
+			wi = len(run.planMiss[0])
+		}
+		if n, _ := fmt.Sscanf(run.planMiss[0][wi:], "want{d%d", &want); n == 1 {
 			if i := strings.Index(run.planMiss[0], "got{d"); i >= 0 {
 				fmt.Sscanf(run.planMiss[0][i:], "got{d%d", &got)
 				if got < want {
@@ -647,6 +658,22 @@ func retryOracles(run *retryRun, cfg string, modelSettled, stuck, havePlan bool,
 		}
 		if !run.cancelAt.IsZero() && t.After(run.cancelAt) {
 			v = append(v, viol("C09", "dial-after-cancel", "dial %d started %v after the context of the first Connect was cancelled", j, t.Sub(run.cancelAt)))
+		}
+	}
+	// C11: "every blocking call (… Connect/Disconnect of the reconnecting client) returns promptly once its context is
+	// cancelled …; a cancelled context is reported as that context's error"
+	run.retMu.Lock()
+	cerr := run.connErr
+	run.retMu.Unlock()
+	if !run.cancelAt.IsZero() && cerr != nil && !errors.Is(cerr, context.Canceled) && !errors.Is(cerr, context.DeadlineExceeded) {
+		v = append(v, viol("C11", "cancel-wrong-error", "ReconnectClient.Connect, cancelled before the first connection succeeded, returned %v, which is not the context's error", cerr))
+	}
+	for _, pm := range run.planMiss {
+		if strings.HasPrefix(pm, "cancel:connect-did-not-return") {
+			v = append(v, viol("C11", "call-never-returned", "ReconnectClient.Connect did not return after its context was cancelled: %s", pm))
+		}
+		if strings.Contains(pm, "disconnect-did-not-return") {
+			v = append(v, viol("C11", "call-never-returned", "ReconnectClient.Disconnect did not return: %s", pm))
 		}
 	}
 	for _, pm := range run.planMiss {
